@@ -145,6 +145,30 @@ def faults_for(args: dict, kw: dict) -> list[tuple[str, dict]]:
     f = dict(args)
     f["__unexpected__"] = torch.zeros(1)
     out.append(("unexpected-argument", f))
+    # JOINT re-layouts: every data argument changed consistently, so that the shared helper checks (sizes agree) pass and
+    # only the metric's own layout contract (number of tasks / dimensions) can reject the call -- possibly late
+    data = [a for a in names if isinstance(args[a], torch.Tensor) and a != "threshold"]
+    if data:
+        sh0 = list(args[data[0]].shape)
+        same = [a for a in data if list(args[a].shape) == sh0]
+        joint = []
+        if len(sh0) == 1:
+            joint = [("unsqueeze-last", lambda x: x.unsqueeze(-1)), ("unsqueeze-first", lambda x: x.unsqueeze(0)),
+                     ("two-columns", lambda x: torch.stack([x, x], dim=-1)), ("two-rows", lambda x: torch.stack([x, x], dim=0))]
+        elif len(sh0) == 2:
+            joint = [("flatten", lambda x: x.reshape(-1)), ("first-row", lambda x: x[0]), ("transpose", lambda x: x.T.contiguous()),
+                     ("unsqueeze-first", lambda x: x.unsqueeze(0)), ("one-more-row", lambda x: torch.cat([x, x[:1]], dim=0))]
+        for tag, g in joint:
+            for grp, gname in ((same, "same-shaped"), (data, "all")):
+                if gname == "all" and grp == same:
+                    continue
+                f = dict(args)
+                try:
+                    for a in grp:
+                        f[a] = g(args[a])
+                except Exception:   # noqa: BLE001
+                    continue
+                out.append((f"joint:{gname}:{tag}", f))
     return out
 
 
